@@ -78,10 +78,22 @@ def hier_cases(rng, n):
 
 
 def emit(pairs):
-    lines = [lib.CASE_HEADER.format(imports="Latex", gen_imports="From BqGen Require Import GenLatex.")]
+    lines = [lib.CASE_HEADER.format(imports="RepModel Routine Latex", gen_imports="From BqGen Require Import GenLatex.")]
     items = []
-    for case, imp in pairs:
+    for k, (case, imp) in enumerate(pairs):
         tie, spec = [], []
+        src = imp.get("src") or {}
+        if src.get("expect"):
+            # tie: the number of entries of each section of the real rendering of the SOURCE document is what the translated
+            # traversal and assembly (GenLatex.gen_latex_walk / _resource_lines / _port_lines / _param_entries) give
+            lines.append(f"Definition r{k} : routine := {H.routine_to_coq(case['routine'])}.")
+            for key, flag in (("all_flat", "true"), ("all_paged", "true"), ("root_flat", "false"), ("root_paged", "false")):
+                rr = src[key]
+                if rr["ok"]:
+                    c = rr["counts"]
+                    real = [c.get("Input parameters", 0), c.get("Input ports", 0), c.get("Output ports", 0), c.get("Through ports", 0),
+                            c.get("Resources", 0)]
+                    tie.append(f"check_latex_counts r{k} {flag} {E.coq_list([str(x) + '%nat' for x in real])}")
         for tag in ("src", "cmp"):
             if tag not in imp:
                 continue
